@@ -60,6 +60,10 @@ pub struct StdioCase {
     pub cancels: Vec<usize>,
     pub with_emmyrc: bool,
     pub skip_initialized: bool,
+    /// C27 over stdio: per document the notifications sent right after `initialized` (so they are queued while
+    /// the workspace is initialised): 'c' = didChange with a new unique text, 'x' = didClose, 'o' = didOpen with a
+    /// new unique text. Every document starts with a didOpen (version 1).
+    pub edits: Vec<String>,
 }
 
 pub fn gen_case(rng: &mut Rng, i: usize) -> StdioCase {
@@ -89,12 +93,42 @@ pub fn gen_case(rng: &mut Rng, i: usize) -> StdioCase {
         // (a client that omits `initialized` violates the protocol; lsp-server then ends the session with a
         // ProtocolError, which is not a C24 matter — the switch exists for replays only)
         skip_initialized: false,
+        edits: Vec::new(),
     }
+}
+
+/// A case with document traffic for the C27 clause.
+pub fn gen_case_with_edits(rng: &mut Rng, i: usize) -> StdioCase {
+    let mut c = gen_case(rng, i);
+    c.init_mal = 0;
+    c.pre_init_request = false;
+    c.edits = (0..c.nfiles)
+        .map(|_| {
+            let n = rng.range(0, 6);
+            let mut open = true;
+            let mut s = String::new();
+            for _ in 0..n {
+                if open {
+                    if rng.chance(1, 4) {
+                        s.push('x');
+                        open = false;
+                    } else {
+                        s.push('c');
+                    }
+                } else {
+                    s.push('o');
+                    open = true;
+                }
+            }
+            s
+        })
+        .collect();
+    c
 }
 
 pub fn case_to_json(c: &StdioCase) -> Value {
     json!({"stdio": true, "nfiles": c.nfiles, "init_mal": c.init_mal, "pre_init_request": c.pre_init_request, "burst1": c.burst1, "burst2": c.burst2,
-           "cancels": c.cancels, "with_emmyrc": c.with_emmyrc, "skip_initialized": c.skip_initialized})
+           "cancels": c.cancels, "with_emmyrc": c.with_emmyrc, "skip_initialized": c.skip_initialized, "edits": c.edits})
 }
 
 pub fn case_from_json(v: &Value) -> StdioCase {
@@ -110,6 +144,7 @@ pub fn case_from_json(v: &Value) -> StdioCase {
         cancels: v["cancels"].as_array().map(|a| a.iter().map(|x| x.as_u64().unwrap_or(0) as usize).collect()).unwrap_or_default(),
         with_emmyrc: v["with_emmyrc"].as_bool().unwrap_or(false),
         skip_initialized: v["skip_initialized"].as_bool().unwrap_or(false),
+        edits: v["edits"].as_array().map(|a| a.iter().map(|x| x.as_str().unwrap_or("").to_string()).collect()).unwrap_or_default(),
     }
 }
 
@@ -131,6 +166,8 @@ pub struct StdioOutcome {
     pub sentinel_overtook: bool,
     pub stderr_tail: String,
     pub queued_during_init: bool,
+    /// C27: per document (index, open at the end?, marker of the last text sent, all markers sent, documentSymbol result)
+    pub doc_views: Vec<(usize, bool, String, Vec<String>, Option<String>)>,
 }
 
 struct Client {
@@ -140,6 +177,7 @@ struct Client {
     next_id: i64,
     out: StdioOutcome,
     eof: bool,
+    results: BTreeMap<i64, Value>,
 }
 
 fn frame(v: &Value) -> Vec<u8> {
@@ -183,6 +221,7 @@ impl Client {
         } else if let Some(id) = id {
             if let Some(n) = id.as_i64() {
                 *self.out.responses.entry(n).or_default() += 1;
+                self.results.insert(n, m.get("result").cloned().unwrap_or(Value::Null));
             } else {
                 *self.out.responses.entry(-1).or_default() += 1;
             }
@@ -231,6 +270,12 @@ fn file_text(i: usize) -> String {
     format!(
         "---@class Stdio{i}\n---@field n integer\nlocal M{i} = {{}}\n\n---@param a string\n---@return integer\nfunction M{i}.len(a)\n    return #a + {i}\nend\n\nlocal v = M{i}.len(\"x\")\nprint(v, undefined_global_{i})\nreturn M{i}\n"
     )
+}
+
+/// Text of document `i` at write number `w`: one function whose name is unique to (i, w).
+fn versioned_text(i: usize, w: usize) -> (String, String) {
+    let marker = format!("mark_d{i}_w{w}");
+    (format!("local M = {{}}\nfunction M.{marker}(a)\n    return a\nend\nreturn M\n"), marker)
 }
 
 pub fn run_case(work: &str, shard: u32, case: &StdioCase) -> Result<StdioOutcome, String> {
@@ -301,7 +346,7 @@ pub fn run_case(work: &str, shard: u32, case: &StdioCase) -> Result<StdioOutcome
         let s = String::from_utf8_lossy(&all).into_owned();
         let _ = etx.send(s.chars().rev().take(600).collect::<String>().chars().rev().collect());
     });
-    let mut c = Client { child, stdin, rx, next_id: 1, out: StdioOutcome::default(), eof: false };
+    let mut c = Client { child, stdin, rx, next_id: 1, out: StdioOutcome::default(), eof: false, results: BTreeMap::new() };
 
     // ---- a request before initialize: lsp-server answers it with ServerNotInitialized ----
     if case.pre_init_request {
@@ -373,6 +418,47 @@ pub fn run_case(work: &str, shard: u32, case: &StdioCase) -> Result<StdioOutcome
     for (i, u) in uris.iter().enumerate() {
         c.notify("textDocument/didOpen", json!({"textDocument": {"uri": u.as_str(), "languageId": "lua", "version": 1, "text": file_text(i)}}));
     }
+    // ---- C27 traffic: queued behind the didOpen above while the workspace is being initialised ----
+    let mut doc_state: Vec<(bool, String, Vec<String>)> = (0..uris.len()).map(|_| (true, String::new(), Vec::new())).collect();
+    if !case.edits.is_empty() {
+        let mut version = 1;
+        let mut pos: Vec<usize> = vec![0; uris.len()];
+        loop {
+            let mut progressed = false;
+            for (i, u) in uris.iter().enumerate() {
+                let ops: Vec<char> = case.edits.get(i).map(|s| s.chars().collect()).unwrap_or_default();
+                if pos[i] >= ops.len() {
+                    continue;
+                }
+                progressed = true;
+                version += 1;
+                let w = pos[i] + 2;
+                match ops[pos[i]] {
+                    'c' => {
+                        let (t, m) = versioned_text(i, w);
+                        c.notify("textDocument/didChange", json!({"textDocument": {"uri": u.as_str(), "version": version}, "contentChanges": [{"text": t}]}));
+                        doc_state[i].1 = m.clone();
+                        doc_state[i].2.push(m);
+                    }
+                    'x' => {
+                        c.notify("textDocument/didClose", json!({"textDocument": {"uri": u.as_str()}}));
+                        doc_state[i].0 = false;
+                    }
+                    _ => {
+                        let (t, m) = versioned_text(i, w);
+                        c.notify("textDocument/didOpen", json!({"textDocument": {"uri": u.as_str(), "languageId": "lua", "version": version, "text": t}}));
+                        doc_state[i].0 = true;
+                        doc_state[i].1 = m.clone();
+                        doc_state[i].2.push(m);
+                    }
+                }
+                pos[i] += 1;
+            }
+            if !progressed {
+                break;
+            }
+        }
+    }
     let send_burst = |c: &mut Client, b: &[(usize, usize, u8)], cancels: &[usize]| {
         let mut ids = Vec::new();
         for (n, (k, d, mal)) in b.iter().enumerate() {
@@ -412,6 +498,20 @@ pub fn run_case(work: &str, shard: u32, case: &StdioCase) -> Result<StdioOutcome
     if c.out.inconclusive.is_none() && !c.eof && c.status().is_none() && !c.out.sentinel_overtook {
         send_burst(&mut c, &case.burst2, &[]);
         settle(&mut c);
+    }
+    if !case.edits.is_empty() && c.out.inconclusive.is_none() && !c.eof && c.status().is_none() && !c.out.sentinel_overtook {
+        // the protocol-boundary view of what each open document contains now
+        let mut ids = Vec::new();
+        for (i, u) in uris.iter().enumerate() {
+            if doc_state[i].0 && !doc_state[i].1.is_empty() {
+                ids.push((i, c.request("textDocument/documentSymbol", json!({"textDocument": {"uri": u.as_str()}}), 0)));
+            }
+        }
+        settle(&mut c);
+        for (i, id) in ids {
+            let r = c.results.get(&id).map(|v| v.to_string());
+            c.out.doc_views.push((i, doc_state[i].0, doc_state[i].1.clone(), doc_state[i].2.clone(), r));
+        }
     }
     if let Some(st) = c.status() {
         c.out.died_early = Some(st);
@@ -472,6 +572,26 @@ pub fn oracle(o: &StdioOutcome) -> Vec<(String, String)> {
     for (id, n) in &o.responses {
         if !o.sent.iter().any(|(i, _, _)| i == id) {
             v.push(("C24:stdio:response-to-unknown-id".into(), format!("{n} response(s) carry id {id}, which was never sent")));
+        }
+    }
+    v
+}
+
+/// C27 over stdio: the document symbols of every open document name the function of the last text sent for it
+/// and of no earlier text. (signature, detail)
+pub fn oracle_c27(case: &StdioCase, o: &StdioOutcome) -> Vec<(String, String)> {
+    let mut v = Vec::new();
+    for (i, _open, last, all, view) in &o.doc_views {
+        let Some(view) = view else { continue };
+        let ops = case.edits.get(*i).cloned().unwrap_or_default();
+        let tail: String = ops.chars().rev().take(2).collect::<String>().chars().rev().collect();
+        if !view.contains(last.as_str()) {
+            let stale = all.iter().rev().find(|m| *m != last && view.contains(m.as_str()));
+            let what = if stale.is_some() { "earlier-text" } else if view.contains("Stdio") { "initial-text" } else { "none-of-the-texts" };
+            v.push((
+                format!("C27:stdio:symbols-not-of-last-notification:observed={what}:last-ops={tail}"),
+                format!("document m{i}.lua: notifications after the first didOpen = {ops:?}; last text defines {last}, documentSymbol answers {}", crate::report::clip(view, 300)),
+            ));
         }
     }
     v
